@@ -77,6 +77,13 @@ func New(cidrs []string) (*Set, []BadEntry) {
 
 func (s *Set) add(p netip.Prefix) {
 	p = p.Masked()
+	// A prefix written inside the IPv4-mapped block (::ffff:0:0/96) names
+	// IPv4 addresses, and Contains answers a mapped source as the IPv4
+	// address it carries: filed under the IPv6 spans such an entry was
+	// accepted, counted and could match nobody.
+	if p.Addr().Is4In6() && p.Bits() >= 96 {
+		p = netip.PrefixFrom(p.Addr().Unmap(), p.Bits()-96)
+	}
 	lo, hi := bounds(p)
 	if p.Addr().Is4() {
 		s.v4 = append(s.v4, span{lo: lo, hi: hi})
